@@ -1551,6 +1551,21 @@ static void case_allocfail(vh_rng *r0)
 		gen_op(&r, &o, wt_fault);
 		if (o.kind == OP_FREEZE || o.kind == OP_DRAIN) fill_op(&r, &o, OP_ADD);
 		g_fault_bias = 0;
+		if (vh_chance(&r, 1, 4)) {
+			/* targeted shape (added after seeded defect C14-1 was missed): a data chain followed by an empty chain,
+			 * then a multi-extent request larger than the room in those chains, so that evbuffer_expand_fast_ frees the
+			 * trailing empty chains and allocates a replacement - the allocation that is made to fail */
+			struct op p;
+			int tgt = (int)vh_below(&r, (uint64_t)W.nb);
+			memset(&p, 0, sizeof(p)); p.kind = OP_ADD; p.a = p.b = tgt; p.n = 1 + (size_t)vh_below(&r, 3000); p.dseed = vh_rand(&r);
+			exec_op(&p);
+			if (!W.aborted) { memset(&p, 0, sizeof(p)); p.kind = OP_EXPAND; p.a = p.b = tgt; p.n = 2000 + (size_t)vh_below(&r, 6000); p.dseed = vh_rand(&r); exec_op(&p); }
+			memset(&o, 0, sizeof(o)); o.a = o.b = tgt; o.dseed = vh_rand(&r);
+			if (vh_chance(&r, 1, 2)) { o.kind = OP_RESERVE; o.n = 20000 + (size_t)vh_below(&r, 100000); o.v1 = 2 + (int)vh_below(&r, 3); o.v2 = (int)vh_below(&r, 3); }
+			else { o.kind = OP_IOVEC; o.v1 = 1 + (int)vh_below(&r, 4); o.n = 20000 + (size_t)vh_below(&r, 50000); o.n2 = 1 + (size_t)vh_below(&r, 50000); }
+			vh_stat("fault_shape_trailing_empty_chain");
+			if (W.aborted) { world_fini(); break; }
+		}
 		snap_take();
 		W.fault_armed = 1; W.failed0 = before = mf_failed;
 		mf_arm(n);
